@@ -170,9 +170,20 @@ def point_t(ctx):
                 except Uninterpreted:
                     pass
         leaves = any(isinstance(y, (ast.Break, ast.Return)) for y in hit.body)
+        # plain copies made after the selection (a, b = seg, pos) name the same values
+        same_seg = {seg}
+        from ..flow import split_tuple_assign
+        for y in ast.walk(fn):
+            if isinstance(y, ast.Assign):
+                for tg, v in split_tuple_assign(y):
+                    if isinstance(tg, ast.Name) and isinstance(v, ast.Name):
+                        if v.id in same_seg:
+                            same_seg.add(tg.id)
+                        elif v.id in env.env:
+                            env.env[tg.id] = env.env[v.id]
         # the point call that produces the result: on the loop's segment, with the local parameter
         pcalls = [c for c in ast.walk(fn) if isinstance(c, ast.Call) and isinstance(c.func, ast.Attribute) and c.func.attr == "point" and isinstance(c.func.value, ast.Name)
-                  and c.func.value.id == seg and len(c.args) == 1 and c.lineno >= hit.lineno]
+                  and c.func.value.id in same_seg and len(c.args) == 1 and any(c is z for later in fn.body[fn.body.index(lp):] for z in ast.walk(later))]
         vals = []
         for c in pcalls:
             try:
@@ -183,11 +194,18 @@ def point_t(ctx):
         ok = leaves and any(v is not None and v == want for v in vals)
     ctx.ob("R15.2", "Shape.point[local parameter]", ok, detail, lp.lineno, "the point lies at fraction (t - start)/(end - start) of the segment whose interval contains t")
     tops = [x for x in lp.body if isinstance(x, ast.Assign) and isinstance(x.targets[0], ast.Name) and x.targets[0].id == S]
-    okc = len(tops) == 1 and isinstance(tops[0].value, ast.Name) and tops[0].value.id == E and (hit is None or tops[0].lineno > hit.lineno)
+    okc = len(tops) == 1 and isinstance(tops[0].value, ast.Name) and tops[0].value.id == E and (hit is None or lp.body.index(tops[0]) > lp.body.index(hit))
     ctx.ob("R15.2", "Shape.point[carried start]", okc, "; ".join(ast.unparse(x) for x in tops), lp.lineno, "the next interval starts where this one ended")
-    rets = [r for r in ast.walk(fn) if isinstance(r, ast.Return) and r.lineno >= lp.lineno and isinstance(r.value, ast.Call) and isinstance(r.value.func, ast.Attribute) and r.value.func.attr == "point"]
-    ctx.ob("R15.2", "Shape.point[result]", bool(rets) and all(isinstance(r.value.func.value, ast.Name) and r.value.func.value.id == seg for r in rets), "", lp.lineno, "the result is a point of the selected segment")
-    calc = [c for c in ast.walk(fn) if isinstance(c, ast.Call) and attr_chain(c.func) == ["self", "_calc_lengths"] and c.lineno < lp.lineno]
+    rets = [r for later in fn.body[fn.body.index(lp):] for r in ast.walk(later) if isinstance(r, ast.Return) and isinstance(r.value, ast.Call) and isinstance(r.value.func, ast.Attribute) and r.value.func.attr == "point"]
+    segnames = {seg}
+    for y in ast.walk(fn):
+        if isinstance(y, ast.Assign):
+            from ..flow import split_tuple_assign as _sta
+            for tg, v in _sta(y):
+                if isinstance(tg, ast.Name) and isinstance(v, ast.Name) and v.id in segnames:
+                    segnames.add(tg.id)
+    ctx.ob("R15.2", "Shape.point[result]", bool(rets) and all(isinstance(r.value.func.value, ast.Name) and r.value.func.value.id in segnames for r in rets), "", lp.lineno, "the result is a point of the selected segment")
+    calc = [c for earlier in fn.body[:fn.body.index(lp)] for c in ast.walk(earlier) if isinstance(c, ast.Call) and attr_chain(c.func) == ["self", "_calc_lengths"]]
     ctx.ob("R15.2", "Shape.point[uses the cached fractions]", bool(calc), "", fn.lineno, "fractions are computed on demand when absent")
 
 
